@@ -287,6 +287,15 @@ func c10LiteralOrder(t *rapid.T) C10Triple {
 	return C10Triple{Src: ast.BS(sb.String())}
 }
 
+// c10StatefulSelector: root selectors with side effects on variables of their own: every
+// selector evaluation starts from nothing, in every document and in every run.
+func c10StatefulSelector(t *rapid.T) C10Triple {
+	sels := [][]string{{"$[i++]"}, {"[n = n + 1, $][0]", "$[i++]"}, {"$[i++]", "$[i++]"}, {"[seen.push($), seen][1]"}, {"{k: (c = c + \"x\"), v: $}"}}
+	docs := rapid.SampledFrom([]string{"[10,20,30] [40,50,60] [70,80,90]", "[[1],[2]]\n[[3],[4]]", "[1,2]"}).Draw(t, "ssdoc")
+	src := rapid.SampledFrom([]string{"{ print $ }", "BEGINFILE { print \"bf\", $ } { print \"v\", $ } END { print \"end\" }", "{ print $index, $ }"}).Draw(t, "sssrc")
+	return C10Triple{Src: ast.BS(src), Sels: sels[rapid.IntRange(0, len(sels)-1).Draw(t, "sssel")], Files: []DFile{{Name: "in", Docs: []string{docs}}}}
+}
+
 func c10FromCase(c *DCase) C10Triple {
 	return C10Triple{Src: ast.BS(c.Source()), Sels: c.SelSources(), Files: c.Files}
 }
@@ -297,7 +306,10 @@ func genC10(t *rapid.T) (*C10Session, []string) {
 	var labels []string
 	intruders := map[int]bool{}
 	for k := 0; k < n; k++ {
-		switch rapid.IntRange(0, 13).Draw(t, "family") {
+		switch rapid.IntRange(0, 14).Draw(t, "family") {
+		case 14:
+			s.Triples = append(s.Triples, c10StatefulSelector(t))
+			labels = append(labels, "selector-with-side-effects", "intruder")
 		case 13:
 			s.Triples = append(s.Triples, c10LiteralOrder(t))
 			labels = append(labels, "literal-evaluation-order", "anchor-object-order")
@@ -375,7 +387,7 @@ func seq(n int) []int {
 
 func TestC10(t *testing.T) {
 	rec := start(t, "C10", "exploration",
-		"sessions: 2-4 (program, selectors, input) triples executed in one process, each 8 times, interleaved in a random order (A B A C B A ...). Triples come from: an anchor family (print, for-in and printf %v over objects with 2-12 keys taken from the document, a literal, auto-creation and pluck, plus method lookups of every prototype); an intruder family (assignments to method names and builtins, nested method calls, stores into string indices and members of scalars, generated 'store into the result of any read' programs paired with observer programs performing the same reads) that tries to leave state behind in the process; and the C02 / C07 / C09 / C15 / C11 generators (including runs that end in every error kind). Oracle: every execution of a triple gives byte-identical stdout, GetRootJson text and error (class, message, line, column). object literals whose member values have side effects (evaluation order); printf programs that succeed or fail part-way (C18 generator) next to one that always works; one-liners making the first use in a process of one kind of value or prototype method (int-origin numbers such as $index or length(), strings, arrays, objects, regexes). A sample of sessions (and every session with a first-use one-liner) is also run through the binary: three fresh processes must agree with each other and with the run inside the long-lived test process (stdout followed by the -o - JSON text, exit status). Non-trivial: the session contains a triple printing or iterating an object with >= 3 keys, or an intruder next to programs using the same prototype. distinct = distinct session.")
+		"sessions: 2-4 (program, selectors, input) triples executed in one process, each 8 times, interleaved in a random order (A B A C B A ...). Triples come from: an anchor family (print, for-in and printf %v over objects with 2-12 keys taken from the document, a literal, auto-creation and pluck, plus method lookups of every prototype); an intruder family (assignments to method names and builtins, nested method calls, stores into string indices and members of scalars, generated 'store into the result of any read' programs paired with observer programs performing the same reads) that tries to leave state behind in the process; and the C02 / C07 / C09 / C15 / C11 generators (including runs that end in every error kind). Oracle: every execution of a triple gives byte-identical stdout, GetRootJson text and error (class, message, line, column). object literals whose member values have side effects (evaluation order); root selectors with side effects on variables of their own over several documents; printf programs that succeed or fail part-way (C18 generator) next to one that always works; one-liners making the first use in a process of one kind of value or prototype method (int-origin numbers such as $index or length(), strings, arrays, objects, regexes). A sample of sessions (and every session with a first-use one-liner) is also run through the binary: three fresh processes must agree with each other and with the run inside the long-lived test process (stdout followed by the -o - JSON text, exit status). Non-trivial: the session contains a triple printing or iterating an object with >= 3 keys, or an intruder next to programs using the same prototype. distinct = distinct session.")
 	defer rec.Finish()
 	rec.Assume("nondeterminism is detected probabilistically: a randomised order of >= 3 keys survives 8 executions with probability <= 3^-7 per case")
 	rec.Replayer("session", func(raw json.RawMessage) error {
